@@ -170,7 +170,7 @@ theorem extendPol_gen_buf_eq (fuel : Nat) (hf : 64 ≤ fuel) (hp : Heap) (self :
   dsimp only
   rw [hdivE, hcE]
   simp only [Option.bind_some, hbn, Bool.false_eq_true, if_false]
-  rw [href]
+  refresh_rw href (X3, self') : self, bv (2 ^ dn)
   simp only [Option.bind_some]
   cases hr1 : intt o' (if decide (Out = In) = true then DstMode.same else DstMode.other) (hp.block Out) (hp.block In) (2 ^ dn) nc
       nphase.toNat nblock.toNat true with
